@@ -349,6 +349,9 @@ func elemGraphs(c *Ctx, level int, emit func(g *gspec)) {
 					if c.N > 1 && int(fnvHash(fmt.Sprint(nn, mask, pp, form))%uint32(c.N)) != c.Shard {
 						continue
 					}
+					if !c.Unit() {
+						continue
+					}
 					emit(g)
 				}
 			}
